@@ -1,0 +1,132 @@
+//go:build verif
+
+package ws
+
+import (
+	"bytes"
+	"testing"
+)
+
+// Spec validation for /verif (not a proof): the specification functions the contracts are written
+// against are evaluated on the examples the RFCs themselves give, so that a slip in a *spec*
+// (they are written from the RFC text, not from the code) does not go unnoticed.
+
+// RFC 6455 section 5.7: example frames.
+func TestSpecVectors_RFC6455_5_7(t *testing.T) {
+	cases := []struct {
+		name string
+		wire []byte
+		h    Header
+	}{
+		{"unmasked text Hello", []byte{0x81, 0x05, 'H', 'e', 'l', 'l', 'o'}, Header{Fin: true, OpCode: OpText, Length: 5}},
+		{"masked text Hello", []byte{0x81, 0x85, 0x37, 0xfa, 0x21, 0x3d, 0x7f, 0x9f, 0x4d, 0x51, 0x58}, Header{Fin: true, OpCode: OpText, Masked: true, Mask: [4]byte{0x37, 0xfa, 0x21, 0x3d}, Length: 5}},
+		{"first fragment Hel", []byte{0x01, 0x03, 'H', 'e', 'l'}, Header{Fin: false, OpCode: OpText, Length: 3}},
+		{"last fragment lo", []byte{0x80, 0x02, 'l', 'o'}, Header{Fin: true, OpCode: OpContinuation, Length: 2}},
+		{"unmasked ping Hello", []byte{0x89, 0x05, 'H', 'e', 'l', 'l', 'o'}, Header{Fin: true, OpCode: OpPing, Length: 5}},
+		{"masked pong Hello", []byte{0x8a, 0x85, 0x37, 0xfa, 0x21, 0x3d, 0x7f, 0x9f, 0x4d, 0x51, 0x58}, Header{Fin: true, OpCode: OpPong, Masked: true, Mask: [4]byte{0x37, 0xfa, 0x21, 0x3d}, Length: 5}},
+		{"256 bytes binary", append([]byte{0x82, 0x7e, 0x01, 0x00}, make([]byte, 256)...), Header{Fin: true, OpCode: OpBinary, Length: 256}},
+		{"64KiB binary", append([]byte{0x82, 0x7f, 0, 0, 0, 0, 0, 1, 0, 0}, make([]byte, 8)...), Header{Fin: true, OpCode: OpBinary, Length: 65536}},
+	}
+	for _, c := range cases {
+		n := specHdrLen(c.h.Length, c.h.Masked)
+		for i := 0; i < n; i++ {
+			if got := specHdrByte(c.h, i); got != c.wire[i] {
+				t.Errorf("%s: specHdrByte(%d) = %#x, RFC says %#x", c.name, i, got, c.wire[i])
+			}
+		}
+		g := &ghostStream{in: c.wire}
+		if need := VSpecNeed(c.wire[1]); need != n {
+			t.Errorf("%s: VSpecNeed = %d, header has %d bytes", c.name, need, n)
+		}
+		if got := VSpecDecode(g, 0); got != c.h {
+			t.Errorf("%s: VSpecDecode = %+v, RFC says %+v", c.name, got, c.h)
+		}
+		if VSpecMSB(g, 0) {
+			t.Errorf("%s: VSpecMSB set", c.name)
+		}
+	}
+	// the masked "Hello" of the RFC is "Hello" XOR key[i mod 4]
+	key := [4]byte{0x37, 0xfa, 0x21, 0x3d}
+	masked := []byte{0x7f, 0x9f, 0x4d, 0x51, 0x58}
+	for i, b := range []byte("Hello") {
+		if b^key[VMaskIdx(0, i)] != masked[i] {
+			t.Errorf("VMaskIdx(0,%d) does not reproduce the RFC's masked Hello", i)
+		}
+	}
+	// continuing at offset 3 uses the key from its fourth byte on
+	if VMaskIdx(3, 0) != 3 || VMaskIdx(3, 1) != 0 || VMaskIdx(7, 2) != 1 {
+		t.Errorf("VMaskIdx does not continue the key at an offset")
+	}
+}
+
+// RFC 6455 sections 5.1, 5.2, 5.4, 5.5: the framing rules on hand-picked headers.
+func TestSpecVectors_RFC6455_rules(t *testing.T) {
+	srv, cli := StateServerSide, StateClientSide
+	ok := []struct {
+		h Header
+		s State
+	}{
+		{Header{Fin: true, OpCode: OpText, Masked: true}, srv},
+		{Header{Fin: true, OpCode: OpText}, cli},
+		{Header{Fin: false, OpCode: OpBinary, Masked: true}, srv},
+		{Header{Fin: true, OpCode: OpContinuation, Masked: true}, srv | StateFragmented},
+		{Header{Fin: true, OpCode: OpPing, Masked: true, Length: 125}, srv | StateFragmented},
+		{Header{Fin: true, OpCode: OpClose}, cli},
+		{Header{Fin: true, OpCode: OpText, Rsv: 4}, cli | StateExtended},
+	}
+	bad := []struct {
+		h Header
+		s State
+	}{
+		{Header{Fin: true, OpCode: OpText}, srv},                                     // 5.1: client frames must be masked
+		{Header{Fin: true, OpCode: OpText, Masked: true}, cli},                       // 5.1: server frames must not be
+		{Header{Fin: true, OpCode: 3, Masked: true}, srv},                            // 5.2: reserved opcode
+		{Header{Fin: true, OpCode: 11}, cli},                                         // 5.2: reserved control opcode
+		{Header{Fin: true, OpCode: OpText, Rsv: 4}, cli},                             // 5.2: RSV without extension
+		{Header{Fin: false, OpCode: OpPing}, cli},                                    // 5.5: control frames are not fragmented
+		{Header{Fin: true, OpCode: OpPong, Length: 126}, cli},                        // 5.5: at most 125 bytes
+		{Header{Fin: true, OpCode: OpContinuation}, cli},                             // 5.4: nothing to continue
+		{Header{Fin: true, OpCode: OpText}, cli | StateFragmented},                   // 5.4: new message inside a fragmented one
+	}
+	for _, c := range ok {
+		if !specHeaderOK(c.h, c.s) {
+			t.Errorf("specHeaderOK refuses %+v in state %b", c.h, c.s)
+		}
+	}
+	for _, c := range bad {
+		if specHeaderOK(c.h, c.s) {
+			t.Errorf("specHeaderOK accepts %+v in state %b", c.h, c.s)
+		}
+	}
+}
+
+// RFC 6455 section 7.4: status codes an endpoint may / may not put into a close frame.
+func TestSpecVectors_RFC6455_7_4(t *testing.T) {
+	for _, c := range []StatusCode{1000, 1001, 1002, 1003, 1007, 1008, 1009, 1010, 1011, 3000, 3999, 4000, 4999} {
+		if !codeAccept(c) {
+			t.Errorf("codeAccept(%d) = false", c)
+		}
+	}
+	for _, c := range []StatusCode{0, 999, 1004, 1005, 1006, 1015, 1016, 2999} {
+		if codeAccept(c) || codeOpen(c) {
+			t.Errorf("code %d must be refused (accept=%v open=%v)", c, codeAccept(c), codeOpen(c))
+		}
+	}
+	if specBE16(0x03, 0xe8) != 1000 {
+		t.Errorf("specBE16")
+	}
+}
+
+// RFC 6455 section 1.3: the sample nonce and its accept value.
+func TestSpecVectors_RFC6455_accept(t *testing.T) {
+	key := []byte("dGhlIHNhbXBsZSBub25jZQ==")
+	want := []byte("s3pPLMBiTxaQ9kYGzzhZRbK+xOo=")
+	got := make([]byte, acceptSize)
+	initAcceptFromNonce(got, key)
+	if !bytes.Equal(got, want) {
+		t.Errorf("accept of the RFC's sample nonce = %q, want %q", got, want)
+	}
+	if !checkAcceptFromNonce(want, key) {
+		t.Errorf("checkAcceptFromNonce refuses the RFC's sample")
+	}
+}
